@@ -27,7 +27,9 @@
 (*        stp  |-> Stop: 0 not called, 1 outstanding (gate held),          *)
 (*                 2 HUNG, 3 returned]                                     *)
 (* act = [op, tx, out, res]                                                *)
-(*   op  in Init BcastCall HRelease RbRelease MarkCall Block Tick Stop     *)
+(*   op  in Init BcastCall HRelease RbRelease MarkCall Mined Block Tick    *)
+(*          Stop; Mined(tx, out) = the rescan finds tx in a block, out =   *)
+(*          spend / pay / both / neither: why the rescan cares about it    *)
 (*   out = result the gate hands back to the code (HRelease / RbRelease):  *)
 (*         ok mempool xmempool | confirmed xconfirmed | invalid fee        *)
 (*         unknown plain                                                   *)
@@ -91,12 +93,15 @@ Upd1(a, act, o2) ==
              ELSE SetStatus(a1, t, IF o2.hcb = 0 THEN 3 ELSE 4)
     [] act.op = "Stop"     -> [a EXCEPT !.stopped = TRUE]
     [] act.op = "MarkCall" -> [a EXCEPT !.mkTx = act.tx]
+    \* the rescan found tx in a block: a report iff the tx is relevant to
+    \* the rescan (it then returns it to its caller as a mined relevant tx)
+    [] act.op = "Mined"    -> [a EXCEPT !.mkTx = IF act.out = "neither" THEN 0 ELSE act.tx]
     [] act.op = "Tick"     -> [a EXCEPT !.tickWait = (o2.hcb # 0)]
     [] OTHER -> a
 
 \* 2. a MarkAsConfirmed call returned in this step: the report was made
 MarkReturned(a, act, o2) ==
-  o2.mk = 0 /\ (act.op = "MarkCall" \/ a.lmk # 0)
+  o2.mk = 0 /\ (act.op \in {"MarkCall", "Mined"} \/ a.lmk # 0)
 
 Upd2(a0, a, act, o2) ==
   IF MarkReturned(a0, act, o2)
